@@ -6,6 +6,7 @@ import NLV.Driver.Commands
 import NLV.Driver.DoneCallback
 import NLV.Driver.Lifecycle
 import NLV.Driver.RunProc
+import NLV.Driver.Trace
 
 def main (args : List String) : IO UInt32 := do
   match args with
@@ -17,4 +18,5 @@ def main (args : List String) : IO UInt32 := do
   | ["done"] => NLV.Driver.Done.main; return 0
   | ["life"] => NLV.Driver.Life.main; return 0
   | ["runproc"] => NLV.Driver.RunProc.main; return 0
+  | ["trace"] => NLV.Driver.Trace.main; return 0
   | _ => IO.eprintln "usage: nlvmodel <model>"; return 2
